@@ -579,3 +579,41 @@ func (in *Interp) absMulDiv(mul bool, a, b *Term) *Term {
 	p.absApps = append(p.absApps, r)
 	return r
 }
+
+// sync/atomic.Value (single-threaded executions only): Load/Store on a per-path side table keyed by the
+// receiver's object and field path. Enough for caches guarded by an atomic.Value.
+func atomicKey(v Value) string {
+	p, ok := v.(PtrV)
+	if !ok || p.obj == nil {
+		unsup("atomic.Value method on a non-pointer receiver")
+	}
+	return fmt.Sprintf("%d/%v", p.obj.id, p.path)
+}
+
+func init() {
+	def := func(name, doc string, f stubFn) {
+		stubDoc[name] = doc
+		stubs[name] = func(in *Interp, a []Value) Value {
+			if !in.initing {
+				in.usedStub(name)
+			}
+			return f(in, a)
+		}
+	}
+	def("(*sync/atomic.Value).Load", "single-threaded model: returns the last stored interface value (nil interface if none)", func(in *Interp, a []Value) Value {
+		if in.atomicVals == nil {
+			in.atomicVals = map[string]Value{}
+		}
+		if v, ok := in.atomicVals[atomicKey(a[0])]; ok {
+			return v
+		}
+		return IfaceV{}
+	})
+	def("(*sync/atomic.Value).Store", "single-threaded model: remembers the stored interface value", func(in *Interp, a []Value) Value {
+		if in.atomicVals == nil {
+			in.atomicVals = map[string]Value{}
+		}
+		in.atomicVals[atomicKey(a[0])] = a[1]
+		return nil
+	})
+}
